@@ -4,6 +4,7 @@ import Ggql.Gen.Locks
 import Ggql.Gen.Coerce
 import Ggql.Gen.Tables
 import Ggql.Gen.Intro
+import Ggql.Gen.Parse
 open Ggql Ggql.Driver
 
 def genTables : Tables :=
@@ -18,6 +19,7 @@ def genTables : Tables :=
     outId := Gen.coerceOutId, inId := Gen.coerceInId,
     outBoolean := Gen.coerceOutBoolean, inBoolean := Gen.coerceInBoolean,
     outTime := Gen.coerceOutTime, inTime := Gen.coerceInTime,
-    introTable := Gen.introTable, locateTable := Gen.locateTable, metaLiteral := Gen.metaContainerLiteral }
+    introTable := Gen.introTable, locateTable := Gen.locateTable, metaLiteral := Gen.metaContainerLiteral,
+    sdlEmptyTokenSpins := Gen.sdlEmptyTokenSpins }
 
 def main (args : List String) : IO Unit := run genTables args
